@@ -625,6 +625,8 @@ impl Th {
             edges: [e0, e1],
             wedge,
             pop_mask: if op.c & 32 != 0 { op.c & 3 } else { 3 },
+            // one node in four (of those created with flag 64) uses the API in its destructor
+            dact: if op.c & 64 != 0 && op.c & 128 != 0 { 1 + (op.a % 255) } else { 0 },
         }
     }
     fn register(&mut self, rc_word: usize, node: *const VNode) -> usize {
@@ -1843,7 +1845,7 @@ pub fn run_case(case: &RcCase) -> RcRun {
     let mut rounds = 0u64;
     loop {
         let live = with(|s| s.by_addr.len());
-        if live == 0 {
+        if live == 0 && shared.roots.iter().all(|r| circ::verif::atomic_rc_peek(r) & !(0xF << 60) & !7 == 0) {
             break;
         }
         if rounds >= bound {
@@ -1864,6 +1866,24 @@ pub fn run_case(case: &RcCase) -> RcRun {
         }
         round();
         rounds += 1;
+        // a destructor may have handed a reference to a root cell meanwhile
+        for r in shared.roots.iter() {
+            if circ::verif::atomic_rc_peek(r) != 0 {
+                drop(r.swap(Rc::null(), Ordering::SeqCst));
+            }
+        }
+    }
+    // filler objects created by destructor actions must be gone too
+    let mut extra = 0;
+    while with(|s| !s.untracked.is_empty()) {
+        if extra > 64 {
+            with(|s| {
+                let d = format!("{} filler objects released inside destructors were never freed; trace: {}", s.untracked.len(), s.tail(30));
+                violation("C04", "O-leak", "O-leak/filler", &d);
+            });
+        }
+        round();
+        extra += 1;
     }
     let epoch1 = circ::verif::global_epoch();
     let mut counters = std::collections::BTreeMap::new();
@@ -1919,6 +1939,9 @@ pub fn exec(prop: &str, v: &serde_json::Value) -> Report {
     }
     if get(c, "destruct_cascade") > 0 {
         rep.label("cascade");
+    }
+    if get(c, "destructor_snapshots") > 0 {
+        rep.label("api-use-inside-destructor");
     }
     if get(c, "stalls_ge2_epochs") > 0 {
         rep.label("stall>=2epochs");
